@@ -1,33 +1,58 @@
 (* C15 property theorems: statements only, each closed by `exact`.
 
-   The model is parametrised by `cfg` = which of the four proposed repairs the code contains.
-   `cfg_current` (all false) is the pinned tree, `cfg_fixed` the tree with every repair applied.
-   For the pinned tree the applicable statements are the `_partial` ones (explicit guards) next to
-   the `_refuted` ones (witnesses replayed on the implementation, known_findings/C15.json);
-   statements about `cfg_fixed` / `drain = true` / `fix_map c = true` describe the repaired code. *)
+   The model is parametrised by `cfg` = which repairs the code contains.  `cfg_now` is /repo as it
+   stands (the four defects of the snapshot 75ee8d3 are repaired: 1e4dc27, c4fcf7f, ab776e6, 1799c30),
+   `cfg_snapshot` the historical snapshot, `cfg_fixed` also contains the two proposed repairs.
+   Statements named `_hist_...` (refuted / partial for drain = false, fix flags false) describe the
+   historical snapshot and are kept so that a regression of a repair has a proved description;
+   everything else describes /repo as it stands or any cfg. *)
 From Coq Require Import ZArith List Bool Arith.
 From PAFC15 Require Import Model Proofs1 Proofs2 Proofs3 Witness.
 Import ListNotations.
 
-(* ---- C15_sum: the value of a sum -------------------------------------------------------------- *)
+(* ---- C15_sum: structure and value of a sum ---------------------------------------------------- *)
 
-(* serial evaluation is the sum of every analysis' likelihood (raising iff one of them raises) *)
+(* serial evaluation: the sum of every analysis' likelihood, else the first raising analysis' exception *)
 Theorem C15_sum_serial : forall (A X : Type) (ev : A -> X -> res) (l : list A) (x : X),
   serial ev l x = spec_sum ev l x.
 Proof. exact @serial_spec. Qed.
 
-(* every bracketing of + (and sum([...])) holds the analyses in the order written, as a
-   CombinedModelAnalysis iff one of them carries a model, member i reading sub-instance i *)
-Theorem C15_flatten : forall e : expr, eval cfg_fixed e = spec_struct e.
-Proof. exact flatten_fixed. Qed.
+Theorem C15_serial_is_allowed : forall (A X : Type) (ev : A -> X -> res) (l : list A) (x : X),
+  ok_answer ev l x (spec_sum ev l x).
+Proof. exact @spec_sum_ok. Qed.
 
-Theorem C15_flatten_partial : forall (c : cfg) (e : expr), guard c e = true -> eval c e = spec_struct e.
+(* /repo today: every bracketing of + (and sum([...])) without with_free_parameters inside holds the
+   analyses in the order written, as a CombinedModelAnalysis iff one of them carries a model, member i
+   reading sub-instance i; with_free_parameters on the finished sum re-wraps them in order *)
+Theorem C15_flatten : forall e : expr, nofree e = true -> eval cfg_now e = spec_struct e.
+Proof. exact flatten_now. Qed.
+
+Theorem C15_flatten_free_top : forall (c : cfg) (e : expr),
+  nofree e = true -> guard c e = true -> eval c (Free e) = spec_struct (Free e).
+Proof. exact flatten_free_top. Qed.
+
+Theorem C15_flatten_partial : forall (c : cfg) (e : expr),
+  nofree e = true -> guard c e = true -> eval c e = spec_struct e.
 Proof. exact flatten_ok. Qed.
 
-Theorem C15_flatten_order_refuted : exists e : expr, eval (mkCfg false true true true) e <> spec_struct e.
+(* sums with a free-parameter operand: these orders raise ... *)
+Theorem C15_free_left_raises : forall (c : cfg) (e b : expr), eval c (Add (Free e) b) = VErr.
+Proof. exact free_left_raises. Qed.
+
+Theorem C15_single_plus_free_raises : forall (c : cfg) (j : nat) (h : bool) (e : expr),
+  eval c (Add (Leaf j h) (Free e)) = VErr.
+Proof. exact single_plus_free_raises. Qed.
+
+(* ... but (a + b) + (c + d).with_free_parameters(p) is accepted silently (known finding, no repair flag) *)
+Theorem C15_free_right_refuted : exists e : expr, eval cfg_fixed e <> spec_struct e.
+Proof. exact free_right_refuted. Qed.
+
+Theorem C15_hist_flatten_order_refuted :
+  exists e : expr, nofree e = true /\ eval (mkCfg false true true true true true) e <> spec_struct e.
 Proof. exact flatten_order_refuted. Qed.
 
-Theorem C15_flatten_models_refuted : exists e : expr, eval (mkCfg true false true true) e <> spec_struct e.
+Theorem C15_hist_flatten_models_refuted :
+  exists e : expr, nofree e = true /\ eval (mkCfg true false true true true true) e <> spec_struct e.
 Proof. exact flatten_models_refuted. Qed.
 
 Theorem C15_member_i : forall (k : ckind) (l : list (nat * bool)) (i j : nat) (h : bool),
@@ -35,66 +60,92 @@ Theorem C15_member_i : forall (k : ckind) (l : list (nat * bool)) (i j : nat) (h
   nth_error (spec_items k l) i = Some (match k with KPlain => IPlain j h | _ => IIdx j h i end).
 Proof. exact spec_items_nth. Qed.
 
-Theorem C15_with_free_members : forall (c : cfg) (k : ckind) (l : list (nat * bool)),
-  with_free c (VComb k (spec_items k l)) = VComb KFree (spec_items KFree l).
-Proof. exact with_free_spec. Qed.
-
-(* the i-th analysis of an indexed collection is evaluated on the i-th sub-instance, a member of a
-   plain sum on the instance itself *)
-Theorem C15_sub_instance : forall (S : Type) (lik : nat -> S -> res) (its : list item) (i : nat) (it : item)
-    (w : S) (parts : list S) (s : S),
-  nth_error its i = Some it -> nth_error parts i = Some s ->
-  exists it', nth_error (reindex_from 0 its) i = Some it' /\ item_id it' = item_id it
-              /\ item_lik lik it' (w, parts) = lik (item_id it) s.
-Proof. exact @indexed_sub_instance. Qed.
-
+(* the likelihood of an indexed collection: each analysis on its own sub-instance *)
 Theorem C15_sum_sub_instances : forall (S : Type) (lik : nat -> S -> res) (its : list item) (w : S) (parts : list S),
   length parts = length its ->
   serial (item_lik lik) (reindex_from 0 its) (w, parts)
   = spec_sum (fun (p : nat * S) (_ : unit) => lik (fst p) (snd p)) (combine (map item_id its) parts) tt.
 Proof. exact @indexed_sum. Qed.
 
+(* END TO END, /repo today: for ANY bracketing e, any history of evaluations / visualize calls / core
+   changes under any schedule, every outcome is the one for the analyses of e in the order written ... *)
+Theorem C15_sum : forall (S : Type) (lik vlik : nat -> S -> res) (e : expr) (fm : bool)
+    (ops : list (op (X := S * list S))),
+  nofree e = true -> is_leaf e = false ->
+  Forall2 (out_ok (item_lik lik) (item_lik vlik) (spec_items (spec_kind (leaves e)) (leaves e)))
+          (calls ops)
+          (snd (run (item_lik lik) (item_lik vlik) true fm (items_of (eval cfg_now e)) st_init ops)).
+Proof. exact @sum_end_to_end. Qed.
+
+Theorem C15_sum_free : forall (S : Type) (lik vlik : nat -> S -> res) (e : expr) (fm : bool)
+    (ops : list (op (X := S * list S))),
+  nofree e = true -> is_leaf e = false ->
+  Forall2 (out_ok (item_lik lik) (item_lik vlik) (spec_items KFree (leaves e)))
+          (calls ops)
+          (snd (run (item_lik lik) (item_lik vlik) true fm (items_of (eval cfg_now (Free e))) st_init ops)).
+Proof. exact @free_end_to_end. Qed.
+
+(* ... whose value, when nobody raises, is the sum over the written analyses of their likelihood on
+   their own sub-instance (indexed kinds) / on the instance itself (plain sum) *)
+Theorem C15_sum_value_indexed : forall (S : Type) (lik : nat -> S -> res) (k : ckind) (l : list (nat * bool))
+    (w : S) (parts : list S),
+  k <> KPlain -> length parts = length l ->
+  total (item_lik lik) (spec_items k l) (w, parts)
+  = total (fun (p : nat * S) (_ : unit) => lik (fst p) (snd p)) (combine (map fst l) parts) tt.
+Proof. exact @total_indexed. Qed.
+
+Theorem C15_sum_value_plain : forall (S : Type) (lik : nat -> S -> res) (l : list (nat * bool)) (w : S) (parts : list S),
+  total (item_lik lik) (spec_items KPlain l) (w, parts) = total (fun (j : nat) (_ : unit) => lik j w) (map fst l) tt.
+Proof. exact @total_plain. Qed.
+
 (* ---- C15_history_free: pool = serial, for every schedule, partition and history ----------------- *)
 
 Theorem C15_partition : forall (A : Type) (cores : nat) (l : list A), 1 <= cores -> concat (split_procs cores l) = l.
 Proof. exact @split_concat. Qed.
 
-(* one evaluation on a pool with nothing pending, any schedule `masks`, pinned or repaired results() *)
+(* one call (evaluation or map) on a pool with nothing pending, any schedule `masks` *)
 Theorem C15_pool_sum : forall (A X : Type) (ev : A -> X -> res) (drain : bool) (l : list A) (procs : list (list A))
     (x : X) (masks : list (list bool)) (qs : list (list res)),
   concat procs = l -> concat qs = [] -> length qs = length procs ->
-  exists qs', pool_call ev drain (length l) procs x masks qs = Some (spec_sum ev l x, qs')
-              /\ length qs' = length procs
-              /\ ((drain = true \/ existsb (raises ev x) l = false) -> concat qs' = []).
+  exists r qs', pool_call ev drain (length l) procs x masks qs = Some (r, qs')
+                /\ ok_answer ev l x r
+                /\ length qs' = length procs
+                /\ ((drain = true \/ existsb (raises ev x) l = false) -> concat qs' = []).
 Proof. exact @pool_call_clean. Qed.
 
-(* repaired results(): every answer of every history (evaluations with arbitrary schedules, raising
-   evaluations, changes of n_cores) is the sum on its own instance *)
-Theorem C15_history_free : forall (A X : Type) (ev : A -> X -> res) (l : list A) (ops : list (op (X := X))),
-  snd (run ev true l st_init ops) = map (fun x => Some (spec_sum ev l x)) (evals ops).
-Proof. exact @history_free_fixed. Qed.
-
-Theorem C15_cores_independent : forall (A X : Type) (ev : A -> X -> res) (l : list A) (ops ops' : list (op (X := X))),
-  evals ops = evals ops' -> snd (run ev true l st_init ops) = snd (run ev true l st_init ops').
-Proof. exact @cores_independent_fixed. Qed.
-
-(* pinned results(): the same for every answer not preceded, since the pool was created, by a raising
-   evaluation of that pool (`guarded` yields None exactly for the others) *)
-Theorem C15_history_free_partial : forall (A X : Type) (ev : A -> X -> res) (drain : bool) (l : list A)
+(* /repo today: every outcome of every history (evaluations and visualize calls with arbitrary
+   schedules, raising calls of any exception class, changes of n_cores incl. back to 1 with the old
+   pool kept) is right: the sum, or the exception of one of the raising analyses *)
+Theorem C15_history_free : forall (A X : Type) (ev vis : A -> X -> res) (fm : bool) (l : list A)
     (ops : list (op (X := X))),
-  Forall2 meets (guarded ev drain l 1 false ops) (snd (run ev drain l st_init ops)).
+  Forall2 (out_ok ev vis l) (calls ops) (snd (run ev vis true fm l st_init ops)).
+Proof. exact @history_free_now. Qed.
+
+(* when the raising analyses of each call agree on the exception class, the answers are exactly the
+   serial ones ... *)
+Theorem C15_history_answers : forall (A X : Type) (ev vis : A -> X -> res) (fm : bool) (l : list A)
+    (ops : list (op (X := X))),
+  Forall (call_uniform ev vis l) ops ->
+  map out_ans (snd (run ev vis true fm l st_init ops)) = map (call_spec ev vis l) (calls ops).
+Proof. exact @history_answers_now. Qed.
+
+(* ... hence independent of the number of cores, the schedules and whatever happened before *)
+Theorem C15_cores_independent : forall (A X : Type) (ev vis : A -> X -> res) (fm fm' : bool) (l : list A)
+    (ops ops' : list (op (X := X))),
+  Forall (call_uniform ev vis l) ops -> Forall (call_uniform ev vis l) ops' ->
+  map erase (calls ops) = map erase (calls ops') ->
+  map out_ans (snd (run ev vis true fm l st_init ops)) = map out_ans (snd (run ev vis true fm' l st_init ops')).
+Proof. exact @cores_independent_now. Qed.
+
+(* historical results(): the same for every call not preceded by a raising call of the same pool *)
+Theorem C15_hist_history_free_partial : forall (A X : Type) (ev vis : A -> X -> res) (drain fm : bool) (l : list A)
+    (ops : list (op (X := X))),
+  Forall2 (meets ev vis l) (guarded ev vis drain l 1 false false ops) (snd (run ev vis drain fm l st_init ops)).
 Proof. exact @history_free_partial. Qed.
 
-Theorem C15_history_free_refuted : exists (l : list nat) (ops : list (op (X := Z))),
-  snd (run w_ev false l st_init ops) <> map (fun x => Some (spec_sum w_ev l x)) (evals ops).
+Theorem C15_hist_history_free_refuted : exists (l : list nat) (ops : list (op (X := Z))),
+  ~ Forall2 (out_ok w_ev w_vis l) (calls ops) (snd (run w_ev w_vis false false l st_init ops)).
 Proof. exact history_free_refuted. Qed.
-
-(* without a pool no history matters, pinned or repaired *)
-Theorem C15_history_free_serial : forall (A X : Type) (ev : A -> X -> res) (drain : bool) (l : list A)
-    (ops : list (op (X := X))) (s : st (A := A)),
-  (forall k, In (OCores k) ops -> k <= 1) -> s_cores s <= 1 ->
-  snd (run ev drain l s ops) = map (fun x => Some (spec_sum ev l x)) (evals ops).
-Proof. exact @serial_history. Qed.
 
 (* ---- C15_free_params: the fitted model --------------------------------------------------------- *)
 
@@ -111,34 +162,72 @@ Theorem C15_free_params : forall (free : list nat) (n : nat) (m : list nat), 1 <
   prior_count (modify_free free n m) = length (free_in free m) * n + length (shared_in free m).
 Proof. exact free_count. Qed.
 
+(* end to end: the fitted model of e.with_free_parameters(free) for any bracketing e *)
+Theorem C15_free_params_of_expr : forall (e : expr) (default : list nat) (own : list (list nat)) (free : list nat),
+  nofree e = true -> is_leaf e = false ->
+  fitted_models cfg_now (kind_of (eval cfg_now (Free e))) (items_of (eval cfg_now (Free e))) default own free
+  = modify_free free (length (leaves e)) default.
+Proof. exact fitted_free_end_to_end. Qed.
+
 Theorem C15_own_model_i : forall (default : list nat) (own : list (list nat)) (its : list item) (i : nat) (it : item),
   nth_error its i = Some it ->
-  nth_error (modify_models default own its) i = Some (map Orig (if item_hm it then nth (item_id it) own [] else default)).
+  nth_error (modify_models default own its) i = Some (map Orig (base_model default own it)).
 Proof. exact models_nth. Qed.
 
-(* ---- C15_child_i: child results and folders ----------------------------------------------------- *)
+Theorem C15_own_models_count : forall (default : list nat) (own : list (list nat)) (its : list item),
+  prior_count (modify_models default own its) = length (nodup Nat.eq_dec (concat (map (base_model default own) its))).
+Proof. exact models_count. Qed.
 
-Theorem C15_child_i : forall (M B : Type) (models : list M) (analyses : list B) (i : nat) (m : M) (a : B),
-  nth_error (children models analyses) i = Some (m, a) <-> nth_error models i = Some m /\ nth_error analyses i = Some a.
-Proof. exact @children_nth. Qed.
+(* free parameters over analyses with their own models: /repo drops the own models (known finding);
+   the proposed repair frees inside each analysis' own model *)
+Theorem C15_free_own_refuted : exists (its : list item) (default : list nat) (own : list (list nat)) (free : list nat),
+  fitted_models cfg_now KFree its default own free <> modify_free_own free default own its.
+Proof. exact free_own_refuted. Qed.
+
+Theorem C15_free_own_model_i : forall (free default : list nat) (own : list (list nat)) (its : list item) (i : nat) (it : item),
+  nth_error its i = Some it ->
+  nth_error (modify_free_own free default own its) i = Some (map (slot_id free i) (base_model default own it)).
+Proof. exact free_own_nth. Qed.
+
+(* ---- C15_child_i: a fit ------------------------------------------------------------------------- *)
+
+(* modify_before_fit keeps the analyses in order; make_result builds child i from analysis i (and
+   model i); save_results hands child i to analysis i in folder i *)
+Theorem C15_fit_rebuilt : forall (c : cfg) (k : ckind) (its : list item), map item_id (rebuilt c k its) = map item_id its.
+Proof. exact rebuilt_ids. Qed.
+
+Theorem C15_child_i : forall (k : ckind) (n : nat) (its : list item) (i : nat) (it : item),
+  n = length its -> nth_error its i = Some it ->
+  nth_error (children k n its) i = Some (match k with KPlain => None | _ => Some i end, it).
+Proof. exact children_nth. Qed.
+
+Theorem C15_fit_positions : forall (k : ckind) (n : nat) (its : list item) (i : nat) (it : item),
+  n = length its -> nth_error its i = Some it ->
+  nth_error (saved its (children k n its)) i = Some (i, (it, (match k with KPlain => None | _ => Some i end, it))).
+Proof. exact saved_nth. Qed.
 
 Theorem C15_folder_i_serial : forall (B : Type) (l : list B) (i : nat),
   nth_error (folders_serial l) i = option_map (fun b => (i, b)) (nth_error l i).
 Proof. exact @folders_serial_nth. Qed.
 
-Theorem C15_folder_i_pool : forall (B : Type) (c : cfg) (cores : nat) (l : list B),
-  fix_map c = true -> folders c cores l = folders_serial l.
-Proof. exact @folders_fixed. Qed.
+(* /repo today: map uses the serial folders for every core count, also inside histories *)
+Theorem C15_folder_i_pool : forall (B : Type) (cores : nat) (l : list B), folders true cores l = folders_serial l.
+Proof. exact @folders_now. Qed.
 
-Theorem C15_folder_i_pool_partial : forall (B : Type) (c : cfg) (cores : nat) (l : list B),
-  length l <= cores -> folders c cores l = folders_serial l.
+Theorem C15_map_written : forall (B X : Type) (vis : B -> X -> res) (x : X) (cores : nat) (l : list B), 1 <= cores ->
+  filter (fun p => negb (raises vis x (snd p))) (folders_procs true 0 0 (split_procs cores l))
+  = filter (fun p => negb (raises vis x (snd p))) (folders_serial l).
+Proof. exact @map_written_now. Qed.
+
+Theorem C15_hist_folder_i_pool_partial : forall (B : Type) (fm : bool) (cores : nat) (l : list B),
+  length l <= cores -> folders fm cores l = folders_serial l.
 Proof. exact @folders_partial. Qed.
 
-Theorem C15_folder_i_pool_refuted : exists (l : list nat) (cores : nat), folders cfg_current cores l <> folders_serial l.
+Theorem C15_hist_folder_i_pool_refuted : exists (l : list nat) (cores : nat), folders false cores l <> folders_serial l.
 Proof. exact folders_refuted. Qed.
 
-Print Assumptions C15_flatten_partial.
+Print Assumptions C15_sum.
 Print Assumptions C15_history_free.
-Print Assumptions C15_history_free_partial.
+Print Assumptions C15_cores_independent.
 Print Assumptions C15_free_params.
-Print Assumptions C15_folder_i_pool_partial.
+Print Assumptions C15_fit_positions.
